@@ -1058,6 +1058,78 @@ def _limit_setting(ctx) -> None:
                                             and any(y == ("name", "int") for y in subterms(c[2][1])) for c, pol in flatten_conds(e.conds))
                   for e in it.events)
     stores = [n for n in ast.walk(f.node) if isinstance(n, ast.Assign) and any(isinstance(t, ast.Name) and t.id == "_REPR_ROWS_DEFAULT" for t in n.targets)]
+    # ... and the limit that is stored IS the setting: evaluated over the three classes of setting (None, 0, a positive integer) - a
+    # truth test of the setting (`n or 12`) turns the smallest limit, 0, into the default and rows that should be elided are shown
+    pname = f.params[0] if f.params else None
+
+    class _Stop(Exception):
+        pass
+
+    def ev(e, env):
+        if isinstance(e, ast.Constant):
+            return ("C", e.value)
+        if isinstance(e, ast.Name):
+            if e.id in env:
+                return env[e.id]
+            raise _Stop()
+        if isinstance(e, ast.Call) and short(e.func) in ("operator.index", "int", "index") and len(e.args) == 1:
+            return ev(e.args[0], env)
+        if isinstance(e, ast.IfExp):
+            return ev(e.body if truth(e.test, env) else e.orelse, env)
+        if isinstance(e, ast.BoolOp):
+            last = None
+            for v in e.values:
+                last = ev(v, env)
+                t_ = tr_of(last)
+                if isinstance(e.op, ast.Or) and t_:
+                    return last
+                if isinstance(e.op, ast.And) and not t_:
+                    return last
+            return last
+        raise _Stop()
+
+    def tr_of(v):
+        return {"NONE": False, "ZERO": False, "POS": True}.get(v[0], bool(v[1]) if v[0] == "C" else True)
+
+    def truth(t, env):
+        if isinstance(t, ast.Compare) and len(t.ops) == 1 and isinstance(t.ops[0], (ast.Is, ast.IsNot)) \
+                and isinstance(t.comparators[0], ast.Constant) and t.comparators[0].value is None:
+            v = ev(t.left, env)
+            return (v[0] == "NONE") == isinstance(t.ops[0], ast.Is)
+        if isinstance(t, ast.UnaryOp) and isinstance(t.op, ast.Not):
+            return not truth(t.operand, env)
+        return tr_of(ev(t, env))
+
+    def run_body(body, env):
+        for st in body:
+            if isinstance(st, (ast.Global, ast.Expr, ast.Pass)):
+                continue
+            if isinstance(st, ast.Assign) and len(st.targets) == 1 and isinstance(st.targets[0], ast.Name):
+                env[st.targets[0].id] = ev(st.value, env)
+            elif isinstance(st, ast.If):
+                if run_body(st.body if truth(st.test, env) else st.orelse, env):
+                    return True
+            elif isinstance(st, ast.Return):
+                return True
+            else:
+                raise _Stop()
+        return False
+    kept = None
+    if pname is not None:
+        kept = True
+        try:
+            for case in (("ZERO", 0), ("POS", 5)):
+                env = {pname: case}
+                run_body([s_ for s_ in f.node.body if not (isinstance(s_, ast.Expr) and isinstance(s_.value, ast.Constant))], env)
+                if env.get("_REPR_ROWS_DEFAULT") != case:
+                    kept = False
+        except _Stop:
+            kept = None
+    ctx.ob("d.preview", f, "limit-is-the-setting", kept is not False,
+           "the stored row limit is the setting itself for 0 and for a positive integer" + ("" if kept else " (not evaluated: outside the fragment)"),
+           f.node, message="display.set_repr_rows does not store the setting it is given: a truth test of the setting (`n or 12`) turns the "
+                           "smallest limit, 0, into the default - data of 3 to 12 rows is then shown in full, without the ellipsis, although it is "
+                           "longer than the preview limit")
     ctx.ob("d.preview", f, "limit-is-an-integer", bool(stores) and (converted or refused),
            "a non-None row limit is converted with operator.index() (or refused unless an int) when it is set", f.node,
            message="display.set_repr_rows stores any object as the row limit: set_repr_rows(12.0) is accepted and every later repr of a vector "
